@@ -18,7 +18,9 @@ MCInit ==
   /\ uni = [par |-> <<0>>, diff |-> <<1>>, time |-> <<0>>, btx |-> <<<<1>>>>, tin |-> <<<<>>>>,
             tout |-> <<<<[a |-> 0, v |-> 0]>>>>, vsz |-> <<100>>]
   /\ \E net \in Nets, thr \in Thrs :
-       LET c == [net |-> net, thr |-> thr, api |-> TRUE, syncing |-> TRUE, gate |-> TRUE, lazy |-> TRUE]
+       LET c == [net |-> net, thr |-> thr, api |-> TRUE, syncing |-> TRUE, gate |-> TRUE, lazy |-> TRUE,
+                fees |-> [ub |-> 0, ur |-> 0, um |-> 0, bal |-> 0, balm |-> 0, pct |-> 0, pctm |-> 0,
+                          hb |-> 0, hr |-> 0, hm |-> 0, sb |-> 0, sp |-> 0]]
            m == InitState(c)
        IN /\ cfg = m.cfg /\ stable = m.stable /\ tree = m.T /\ ing = m.ing /\ next = m.next
           /\ sync = m.sync /\ fee = m.fee /\ cnt = m.cnt /\ now = 1000000 /\ known = m.known
